@@ -122,6 +122,11 @@ def gen(rng):
             d["cfi"] = [[0, [[".cfi_startproc", [], None], [".cfi_personality", [155], rng.choice(names)]] +
                          ([[".cfi_lsda", [27], rng.choice(names)]] if rng.random() < 0.4 else [])],
                         [size, [[".cfi_endproc", [], None]]]]
+    # transfers through memory: `call *A(%rip)` / `jmp *A(%rip)`, A a data word (a function-pointer slot, a jump
+    # table), a code label or an external - control-flow operands none of whose edges leads to A's referent
+    for d in text:
+        if d["kind"] == "code" and d["insns"][-1][0] in ("jmp", "call") and rng.random() < 0.2:
+            d["insns"][-1] = ["icallm" if d["insns"][-1][0] == "call" else "ijmpm", rng.choice(names), 0]
     fwd = []
     for _ in range(rng.randint(0, 2)):
         a, b = rng.choice(names), rng.choice(names)
@@ -294,6 +299,19 @@ def flush(ctx, pending):
         if err:
             if a.get("err", "").split(":")[0] != err.split(":")[0]:
                 ctx.mismatch("the code refuses with %s, the model gives %s" % (err, json.dumps(a)[:160]), payload)
+            if err.startswith("AmbiguousIRError") and "data block" in err:
+                # 'retargeting control flow into data' is an invalid request only if an edge would really move: a
+                # branch/call edge of the instruction's block leads to the old symbol's referent and the new one is data
+                bm, rmap = reqs[0]["mod"], dict(reqs[0]["map"])
+                node = {y: ((r[0] == "p", r[1]) if r else None) for y, r in bm["refs"]}
+                kind_of = {y: (r[0] if r else None) for y, r in bm["refs"]}
+                moves = any(o["access"] == 0 and not o["addraddr"] and o["cfg_block"] is not None and o["syms"][0] in rmap
+                            and kind_of.get(rmap[o["syms"][0]]) == "d" and node.get(o["syms"][0]) is not None
+                            and any(e[0] == o["cfg_block"] and (e[1], e[2]) == node[o["syms"][0]] and e[3] in (0, 1) for e in bm["cfg"])
+                            for o in bm["exprs"])
+                if not moves:
+                    ctx.violation("C18:valid-request-refused", "apply() refuses with %s although no branch or call edge would move into a data block "
+                                  "(the operands that name the symbol are memory operands of indirect transfers)" % err, payload)
             continue
         if "mod" not in a:
             ctx.mismatch("the code retargets, the model refuses: %s" % (a,), payload)
@@ -380,7 +398,9 @@ def gen_with_deletion(rng):
     edits = [] if which is None else [{"op": "delete", "block": which, "off": 0, "len": len(text[which]["insns"])}]
     if rng.random() < 0.3:
         edits.append({"op": "insert", "block": 1, "off": 0, "asm": "nop"})
-    return {"with_deletion": True, "case": {"isa": "X64", "ff": "ELF", "text": text, "externs": ["ext_a"], "edits": edits, "binary_type": rng.choice([["DYN"], ["EXEC"]])}}
+    return {"with_deletion": True, "case": {"isa": "X64", "ff": "ELF", "text": text, "externs": ["ext_a"], "edits": edits, "binary_type": rng.choice([["DYN"], ["EXEC"]])},
+            # "at the end of rewriting" nothing refers to A any more: it may be deleted in the same context
+            "delete_symbol": rng.choice([None, None, False, True])}
 
 
 def check_with_deletion(ctx, g):
@@ -402,6 +422,9 @@ def check_with_deletion(ctx, g):
     rc = RewritingContext(m, gtirb_functions.Function.build_functions(m))
     emodify.register_edits(B, rc, case["edits"])
     rc.retarget_symbol_uses(B.sym["A"], B.sym["B"])
+    if g.get("delete_symbol") is not None:
+        ctx.count("retarget-with-symbol-deletion")
+        rc.delete_symbol(B.sym["A"], force=bool(g["delete_symbol"]))
     try:
         rc.apply()
     except Exception as e:  # noqa: BLE001
@@ -413,6 +436,8 @@ def check_with_deletion(ctx, g):
              and main.address <= e.source.address < main.address + 16 and e.source.section is main.section and e.source.address < B.sym["m2"].referent.address]
     ops = [ex.symbol.name for bi in m.byte_intervals for off, ex in bi.symbolic_expressions.items()
            if isinstance(ex, gtirb.SymAddrConst) and bi.address is not None and main.address <= bi.address + off < B.sym["m2"].referent.address]
+    if g.get("delete_symbol") is not None and any(y.name == "A" for y in m.symbols):
+        ctx.violation("C18:with-deletion:symbol", "retarget A->B and delete_symbol(A) in one context: A is still in the module", payload)
     if ops != ["B"]:
         ctx.violation("C18:with-deletion:operand", "after retargeting A->B (with %s) the call's operand names %s" % (case["edits"], ops), payload)
     if len(calls) != 1 or calls[0].target is not newref:
